@@ -602,6 +602,11 @@ static Outcome run(tape_t const& tape)
     {
         MainWaiting mw;
         while (g_os_threads.load() != 0) { struct timespec ts { 0, 50000 }; nanosleep(&ts, nullptr); }
+        // the terminal receiver has its signal and every object of the pipeline is destroyed: whatever tasks the adaptors still
+        // have in flight must finish.  A task that keeps running here is stuck inside an adaptor (it busy-waits, so the runtime
+        // never looks quiescent): F23 showed up as exactly that, a worker spinning on the poisoned lock of a freed shared state
+        G().diagnose = [] { return std::string("leaf operations alive: ") + std::to_string(g_leaf_ops_live.load()); };
+        BoundedCall bc("pika::wait() after the terminal receiver was signalled and the operation state and all senders were destroyed (a task of the pipeline is still running: it is stuck inside a sender adaptor, e.g. spinning on a lock in memory that the completed pipeline has already freed)");
         pika::wait();
     }
     if (out.kind == Outcome::PASS)
